@@ -372,3 +372,105 @@ package yang
 //@   loop 1
 //@     invariant e != nil && nsAnchor(e) == nsAnchor(e0)
 //@     decreases rank(e)
+
+// ---------------------------------------------------------------------------
+// C13 (and C03): module bookkeeping.
+//
+// Only a *Module reports the kind "module" or "submodule" (a raw *Statement,
+// which also implements Node, reports its keyword whatever it is); checked
+// against the Kind method of every Node implementation.
+//@ func (Node).Kind props C13 C03
+//@   implementations
+//@   ensures !typeis(recv, *Statement) ==> ((result == "module" || result == "submodule") == typeis(recv, *Module))
+//@   ensures typeis(recv, *Module) ==> result == (asptr(recv, *Module).BelongsTo != nil ? "submodule" : "module")
+//@   pure
+//@   safe
+//
+//@ abstract nodeName(n Node) string
+//@ func (Node).NName
+//@   trusted
+//@   ensures result == nodeName(recv)
+//@   pure
+//
+// Current: the latest revision is the greatest revision name (dates compare as
+// strings), or "" without revisions -- for every order of the statements.
+//@ spec maxRev(a array[*Revision], o int, k int) string = k <= 0 ? "" : (strlt(maxRev(a, o, k-1), a[o+k-1].Name) ? a[o+k-1].Name : maxRev(a, o, k-1))
+//@ spec current(s *Module) string = maxRev(back(s.Revision), off(s.Revision), len(s.Revision))
+//
+//@ func (*Module).Current props C13
+//@   requires s != nil && (forall i int :: 0 <= i && i < len(s.Revision) ==> s.Revision[i] != nil)
+//@   ensures  result == current(s)
+//@   ensures  forall i int :: 0 <= i && i < len(s.Revision) ==> !strlt(result, s.Revision[i].Name)
+//@   ensures  result == "" || (exists i int :: 0 <= i && i < len(s.Revision) && s.Revision[i].Name == result)
+//@   pure
+//@   safe
+//@   loop 1
+//@     invariant rev == maxRev(back(s.Revision), off(s.Revision), _k)
+//@     invariant forall i int :: 0 <= i && i < _k ==> !strlt(rev, s.Revision[i].Name)
+//@     invariant rev == "" || (exists i int :: 0 <= i && i < _k && s.Revision[i].Name == rev)
+//
+//@ func (*Module).FullName props C13
+//@   requires s != nil && (forall i int :: 0 <= i && i < len(s.Revision) ==> s.Revision[i] != nil)
+//@   ensures  result == (current(s) == "" ? s.Name : s.Name + "@" + current(s))
+//@   pure
+//@   safe
+//
+// Modules.add: only modules and submodules are accepted; a second module of the
+// same name and revision is rejected and nothing changes; the bare name denotes
+// the entry with the greatest full name among those added under it.
+//@ spec addMap(ms *Modules, n Node) map[string]*Module = asptr(n, *Module).BelongsTo != nil ? ms.SubModules : ms.Modules
+//@ spec fullName(s *Module) string = current(s) == "" ? s.Name : s.Name + "@" + current(s)
+//@ pred revsOK(s *Module) = s != nil && (forall i int :: 0 <= i && i < len(s.Revision) ==> s.Revision[i] != nil)
+//
+//@ func (*Modules).add props C13 C03
+//@   requires ms != nil && ms.Modules != nil && ms.SubModules != nil && n != nil && !typeis(n, *Statement)
+//@   requires typeis(n, *Module) ==> asptr(n, *Module) != nil && nodeName(n) == asptr(n, *Module).Name
+//@   requires forall x *Module :: x != nil ==> revsOK(x)
+//@   requires forall k string :: ms.Modules[k] != nil ==> (fullName(ms.Modules[k]) == k || ms.Modules[k].Name == k)
+//@   requires forall k string :: ms.SubModules[k] != nil ==> (fullName(ms.SubModules[k]) == k || ms.SubModules[k].Name == k)
+//@   ensures  forall k string :: ms.Modules[k] != nil ==> (fullName(ms.Modules[k]) == k || ms.Modules[k].Name == k)
+//@   ensures  forall k string :: ms.SubModules[k] != nil ==> (fullName(ms.SubModules[k]) == k || ms.SubModules[k].Name == k)
+//@   ensures  !typeis(n, *Module) ==> result != nil
+//@   ensures[no-false-duplicate] typeis(n, *Module) && old(addMap(ms, n)[fullName(asptr(n, *Module))]) != nil
+//@            && old(fullName(addMap(ms, n)[fullName(asptr(n, *Module))])) != fullName(asptr(n, *Module)) ==> result == nil
+//@   ensures  typeis(n, *Module) && old(addMap(ms, n)[fullName(asptr(n, *Module))]) != nil ==> result != nil
+//@   ensures  typeis(n, *Module) && old(addMap(ms, n)[fullName(asptr(n, *Module))]) == nil ==> result == nil
+//@   ensures  result != nil ==> (forall k string :: ms.Modules[k] == old(ms.Modules[k]) && ms.SubModules[k] == old(ms.SubModules[k]))
+//@   ensures  result == nil ==> addMap(ms, n)[fullName(asptr(n, *Module))] == asptr(n, *Module)
+//@   ensures  result == nil ==> (forall k string :: k != fullName(asptr(n, *Module)) && k != asptr(n, *Module).Name ==> addMap(ms, n)[k] == old(addMap(ms, n)[k]))
+//@   ensures  result == nil && fullName(asptr(n, *Module)) != asptr(n, *Module).Name ==>
+//@            addMap(ms, n)[asptr(n, *Module).Name] == ((old(addMap(ms, n)[asptr(n, *Module).Name]) == nil || strlt(old(fullName(addMap(ms, n)[asptr(n, *Module).Name])), fullName(asptr(n, *Module))))
+//@                ? asptr(n, *Module) : old(addMap(ms, n)[asptr(n, *Module).Name]))
+//@   safe
+//
+// Source positions of nodes: reading them changes nothing.
+//@ abstract nodeStmt(n Node) *Statement
+//@ func (Node).Statement
+//@   trusted
+//@   ensures result == nodeStmt(recv)
+//@   pure
+//@ func (*Statement).Location props C16 C01
+//@   requires s != nil
+//@   pure
+//@   safe
+//@ func Source props C16 C01
+//@   pure
+//@   safe
+//
+// FindModule: an import or include with a revision-date denotes exactly that
+// revision when it is loaded, else the bare name; nothing is read or changed
+// when the set already holds the answer.
+//@ func (*Modules).FindModule props C13
+//@   requires ms != nil && n != nil
+//@   requires typeis(n, *Import) ==> asptr(n, *Import) != nil
+//@   requires typeis(n, *Include) ==> asptr(n, *Include) != nil
+//@   ensures  typeis(n, *Import) && old(asptr(n, *Import).RevisionDate) != nil && old(ms.Modules[nodeName(n) + "@" + asptr(n, *Import).RevisionDate.Name]) != nil
+//@            ==> result == old(ms.Modules[nodeName(n) + "@" + asptr(n, *Import).RevisionDate.Name])
+//@   ensures  typeis(n, *Import) && (old(asptr(n, *Import).RevisionDate) == nil || old(ms.Modules[nodeName(n) + "@" + asptr(n, *Import).RevisionDate.Name]) == nil)
+//@            && old(ms.Modules[nodeName(n)]) != nil ==> result == old(ms.Modules[nodeName(n)])
+//@   ensures  typeis(n, *Include) && old(asptr(n, *Include).RevisionDate) != nil && old(ms.SubModules[nodeName(n) + "@" + asptr(n, *Include).RevisionDate.Name]) != nil
+//@            ==> result == old(ms.SubModules[nodeName(n) + "@" + asptr(n, *Include).RevisionDate.Name])
+//@   ensures  typeis(n, *Include) && (old(asptr(n, *Include).RevisionDate) == nil || old(ms.SubModules[nodeName(n) + "@" + asptr(n, *Include).RevisionDate.Name]) == nil)
+//@            && old(ms.SubModules[nodeName(n)]) != nil ==> result == old(ms.SubModules[nodeName(n)])
+//@   ensures  !typeis(n, *Import) && !typeis(n, *Include) ==> result == nil
+//@   safe
